@@ -328,7 +328,8 @@ def subst_stream(ctx, order, nbodies, autoref):
     ctx.sample(dict(stream=s.label, first_lines=s.lines[:6]))
 
 
-SEPS = ['', '', ' ', '  ', '\t', '\n', ' \n ', ' (* c *) ', '(**)', ' \\* to the end\n', '(* a \\* b *)']
+SEPS = ['', '', ' ', '  ', '\t', '\n', ' \n ', ' (* c *) ', '(**)', ' \\* to the end\n', '(* a \\* b *)',
+        '(***)', '(** d **)', '(* e **)', '(****)', '(* f * g ) *)', '(*)*)']
 
 
 def glue(rng, sp):
@@ -350,6 +351,8 @@ def glue(rng, sp):
             # (glued operators are the interesting inputs; both sides must agree on them)
             if rng.random() < 0.5:
                 sep = ' '
+            else:
+                glue.merged = True     # two operator spellings touch: they may read as another token
         out.append(sep)
     return ''.join(out)
 
@@ -366,7 +369,9 @@ def text_stream(ctx, order, ntrees):
         tree = rand_tree(rng, rng.randint(1, 4), [])
         e = value(tree)
         sp = spell(tree, rng, rng.random() < 0.5)
+        glue.merged = False
         text = glue(rng, sp)
+        separated = not glue.merged
         le = s.lex_text(text)
         pe = s.parse_text(text)
         r = M.op('add_expr_text', Text(text))
@@ -377,6 +382,12 @@ def text_stream(ctx, order, ntrees):
         ctx.case(('text', order, text), e not in (0, FULL))
         ctx.count('text')
         canon = s.parse(sp)      # the tree of the spaced spelling
+        if separated and pe != canon:
+            # only white space and comments were put between the spellings (no two operator
+            # spellings touch): the text IS the formula, whatever the implementation's lexer says
+            ctx.violation('C05:wrong-meaning',
+                          f'{text!r} is not read as the formula {" ".join(sp)!r} (comments / spacing '
+                          f'changed the token stream)', M.case())
         if pe == canon:
             # the text reads as the formula it was made from: it must mean the same
             if not res.startswith('ok:'):
